@@ -81,7 +81,7 @@ static inline void shapes(const ShapeOpts &so, hz::Rng &rng, const std::function
             m.base = base; m.index = index; m.scale = sp.scale; m.scale_written = sp.written; m.scale_first = sp.first;
             m.has_disp = d.first; m.disp = d.second; m.disp_hex = !(so.spellings && (rng.next() & 3) == 0);
             // leading zeros (hex and decimal), more often where spellings are the subject
-            if (m.has_disp && rng.below(so.spellings ? 4 : 10) == 0) { if (!so.spellings && rng.coin()) m.disp_hex = false; m.disp_pad = pad_for((uint64_t)(m.disp < 0 ? -m.disp : m.disp), m.disp_hex, rng); }
+            if (m.has_disp && rng.below(so.spellings ? 4 : 10) == 0) { if (!so.spellings && rng.coin()) m.disp_hex = false; m.disp_pad = pad_for((uint64_t)(m.disp < 0 ? -m.disp : m.disp), m.disp_hex, rng); if (m.disp_hex && rng.below(4) == 0) m.disp_pad = 15 + (int)rng.below(6); /* 15..20 hex digits */ }
             cb(m);
           }
         }
@@ -123,6 +123,8 @@ static inline std::vector<ImmSp> imm_spellings(int w, char policy, hz::Rng &rng,
         if (seen.insert(key).second) out.push_back(s);
         if (hex && many_spellings && !isneg) { ImmSp p = s; p.pad = (w == 64 ? 16 : w / 4); std::string k2 = numtext(p.v, p.neg, p.hex, p.pad); if (seen.insert(k2).second) out.push_back(p); }
         // leading zeros: decimal stays decimal ("010" is ten), signed spellings too
+        // more than 16 hex digits (leading zeros), both signs: only where no mode gives the digit count a meaning (everything but mov r64, imm)
+        if (hex && !(policy == 'M' && w == 64) && rng.below(many_spellings ? 3 : 12) == 0) { ImmSp p = s; p.pad = 17 + (int)rng.below(4); std::string k2 = numtext(p.v, p.neg, p.hex, p.pad); if (seen.insert(k2).second) out.push_back(p); }
         if ((many_spellings && (!hex || isneg)) || (!many_spellings && rng.below(4) == 0)) { ImmSp p = s; uint64_t mag = isneg ? (uint64_t)(0 - pattern) : pattern; p.pad = pad_for(mag, p.hex, rng); if (p.hex && p.pad > 15) p.pad = 15; std::string k2 = numtext(p.v, p.neg, p.hex, p.pad); if (seen.insert(k2).second) out.push_back(p); }
       }
     }
